@@ -304,7 +304,8 @@ parse_next_record_header:
         {
             if (MATRIX_IS_SERVER(ssl) &&
                     ssl->tls13ServerEarlyDataEnabled == PS_FALSE &&
-                    ssl->extFlags.got_early_data == 1)
+                    ssl->extFlags.got_early_data == 1 &&
+                    ssl->rec.len > AEAD_TAG_LEN(ssl))
             {
                 /* If server does not accept early_data then ignore decrypt errors
                    to up-to configured ssl->tls13SessionMaxEarlyData bytes.
